@@ -1,0 +1,92 @@
+//go:build verif
+
+// Machine-checked contracts for this package (comment-only; compiled only with -tags verif,
+// and even then contributes no code).  Read by /verif/govc; see /verif/DESIGN.md.
+
+package polprog
+
+//@ -- Offsets the policy-program builder uses into struct cali_tc_state (per-packet state handed to policy
+//@ -- programs) must equal the kernel program's definition, for the IPv4 and the IPv6 build.
+//@ layout stateEventHdrSize: stateEventHdrSize == csizeof("struct event_header") && stateEventHdrSize == coffsetof("struct cali_tc_state", "ip_src")
+//@   property C13
+//@ layout stateOffIPSrc/v4: gofield(stateOffIPSrc, Offset) == coffsetof("struct cali_tc_state", "ip_src")
+//@   property C13
+//@ layout stateOffIPSrc/v6: gofield(stateOffIPSrc, Offset) == coffsetof6("struct cali_tc_state", "ip_src")
+//@   property C13
+//@ layout stateOffIPDst/v4: gofield(stateOffIPDst, Offset) == coffsetof("struct cali_tc_state", "ip_dst")
+//@   property C13
+//@ layout stateOffIPDst/v6: gofield(stateOffIPDst, Offset) == coffsetof6("struct cali_tc_state", "ip_dst")
+//@   property C13
+//@ layout stateOffPreNATIPDst/v4: gofield(stateOffPreNATIPDst, Offset) == coffsetof("struct cali_tc_state", "pre_nat_ip_dst")
+//@   property C13
+//@ layout stateOffPreNATIPDst/v6: gofield(stateOffPreNATIPDst, Offset) == coffsetof6("struct cali_tc_state", "pre_nat_ip_dst")
+//@   property C13
+//@ layout stateOffPostNATIPDst/v4: gofield(stateOffPostNATIPDst, Offset) == coffsetof("struct cali_tc_state", "post_nat_ip_dst")
+//@   property C13
+//@ layout stateOffPostNATIPDst/v6: gofield(stateOffPostNATIPDst, Offset) == coffsetof6("struct cali_tc_state", "post_nat_ip_dst")
+//@   property C13
+//@ layout stateOffPolResult/v4: gofield(stateOffPolResult, Offset) == coffsetof("struct cali_tc_state", "pol_rc")
+//@   property C13
+//@ layout stateOffPolResult/v6: gofield(stateOffPolResult, Offset) == coffsetof6("struct cali_tc_state", "pol_rc")
+//@   property C13
+//@ layout stateOffSrcPort/v4: gofield(stateOffSrcPort, Offset) == coffsetof("struct cali_tc_state", "sport")
+//@   property C13
+//@ layout stateOffSrcPort/v6: gofield(stateOffSrcPort, Offset) == coffsetof6("struct cali_tc_state", "sport")
+//@   property C13
+//@ layout stateOffDstPort/v4: gofield(stateOffDstPort, Offset) == coffsetof("struct cali_tc_state", "dport")
+//@   property C13
+//@ layout stateOffDstPort/v6: gofield(stateOffDstPort, Offset) == coffsetof6("struct cali_tc_state", "dport")
+//@   property C13
+//@ layout stateOffICMPType/v4: gofield(stateOffICMPType, Offset) == coffsetof("struct cali_tc_state", "icmp_type")
+//@   property C13
+//@ layout stateOffICMPType/v6: gofield(stateOffICMPType, Offset) == coffsetof6("struct cali_tc_state", "icmp_type")
+//@   property C13
+//@ layout stateOffPreNATDstPort/v4: gofield(stateOffPreNATDstPort, Offset) == coffsetof("struct cali_tc_state", "pre_nat_dport")
+//@   property C13
+//@ layout stateOffPreNATDstPort/v6: gofield(stateOffPreNATDstPort, Offset) == coffsetof6("struct cali_tc_state", "pre_nat_dport")
+//@   property C13
+//@ layout stateOffPostNATDstPort/v4: gofield(stateOffPostNATDstPort, Offset) == coffsetof("struct cali_tc_state", "post_nat_dport")
+//@   property C13
+//@ layout stateOffPostNATDstPort/v6: gofield(stateOffPostNATDstPort, Offset) == coffsetof6("struct cali_tc_state", "post_nat_dport")
+//@   property C13
+//@ layout stateOffIPProto/v4: gofield(stateOffIPProto, Offset) == coffsetof("struct cali_tc_state", "ip_proto")
+//@   property C13
+//@ layout stateOffIPProto/v6: gofield(stateOffIPProto, Offset) == coffsetof6("struct cali_tc_state", "ip_proto")
+//@   property C13
+//@ layout stateOffIPSize/v4: gofield(stateOffIPSize, Offset) == coffsetof("struct cali_tc_state", "ip_size")
+//@   property C13
+//@ layout stateOffIPSize/v6: gofield(stateOffIPSize, Offset) == coffsetof6("struct cali_tc_state", "ip_size")
+//@   property C13
+//@ layout stateOffRulesHit/v4: gofield(stateOffRulesHit, Offset) == coffsetof("struct cali_tc_state", "rules_hit")
+//@   property C13
+//@ layout stateOffRulesHit/v6: gofield(stateOffRulesHit, Offset) == coffsetof6("struct cali_tc_state", "rules_hit")
+//@   property C13
+//@ layout stateOffRuleIDs/v4: gofield(stateOffRuleIDs, Offset) == coffsetof("struct cali_tc_state", "rule_ids")
+//@   property C13
+//@ layout stateOffRuleIDs/v6: gofield(stateOffRuleIDs, Offset) == coffsetof6("struct cali_tc_state", "rule_ids")
+//@   property C13
+//@ layout stateOffFlags/v4: gofield(stateOffFlags, Offset) == coffsetof("struct cali_tc_state", "flags")
+//@   property C13
+//@ layout stateOffFlags/v6: gofield(stateOffFlags, Offset) == coffsetof6("struct cali_tc_state", "flags")
+//@   property C13
+//@ -- skb->cb[] as seen by the policy program
+//@ layout skbCb0: gofield(skbCb0, Offset) == coffsetof("struct __sk_buff", "cb[0]")
+//@   property C13
+//@ layout skbCb1: gofield(skbCb1, Offset) == coffsetof("struct __sk_buff", "cb[1]")
+//@   property C13
+//@ -- IP set key built on the policy program's stack (struct ip_set_key); the IPv6 key shifts the fields
+//@ -- after the address by 12 bytes
+//@ layout ipsKeyPrefix: govar(ipsKeyPrefix) == coffsetof("struct ip_set_key", "mask") && govar(ipsKeyPrefix) == coffsetof6("struct ip_set_key", "mask")
+//@   property C13
+//@ layout ipsKeyID: govar(ipsKeyID) == coffsetof("struct ip_set_key", "set_id") && govar(ipsKeyID) == coffsetof6("struct ip_set_key", "set_id")
+//@   property C13
+//@ layout ipsKeyAddr: govar(ipsKeyAddr) == coffsetof("struct ip_set_key", "addr") && govar(ipsKeyAddr) == coffsetof6("struct ip_set_key", "addr")
+//@   property C13
+//@ layout ipsKeyPort: govar(ipsKeyPort) == coffsetof("struct ip_set_key", "port") && govar(ipsKeyPort) + 12 == coffsetof6("struct ip_set_key", "port")
+//@   property C13
+//@ layout ipsKeyProto: govar(ipsKeyProto) == coffsetof("struct ip_set_key", "protocol") && govar(ipsKeyProto) + 12 == coffsetof6("struct ip_set_key", "protocol")
+//@   property C13
+//@ layout ipsKeyPad: govar(ipsKeyPad) == coffsetof("struct ip_set_key", "pad") && govar(ipsKeyPad) + 12 == coffsetof6("struct ip_set_key", "pad")
+//@   property C13
+//@ layout ipsKeySize: ipsets.IPSetEntrySize == csizeof("struct ip_set_key") && ipsets.IPSetEntryV6Size == csizeof6("struct ip_set_key")
+//@   property C13
